@@ -5,7 +5,7 @@ COMMON_ASSUME = [
     "verdicts hold for the executions observed, not for inputs the generators never produce",
 ]
 
-HOOK_COMMITS = ["fc089a8", "d84b948"]  # verif-hooks commits in /repo (fix: commits are listed in known_findings.json)
+HOOK_COMMITS = ["fc089a8", "d84b948", "5d45bb1"]  # verif-hooks commits in /repo (fix: commits are listed in known_findings.json)
 
 # properties without a registered check yet (kept current as monitors are added)
 NOT_APPLICABLE = {pid: "monitor under construction in this round: no check is registered for it yet (runtime monitoring does apply; see DESIGN.md §3)"
